@@ -130,7 +130,9 @@ pub fn scenario(sseed: u64, tier: Tier) -> Report {
         g[idx % g.len()].clone()
     } else {
         let initial = *rng.pick(&[0u128, 1, 999, 1_000, 1_000_000, 33_000_000, 100_000_000, 1_000_000_000, DAY, 7 * DAY]);
-        let mult = 1.0 + rng.below(901) as f64 / 100.0;
+        // multipliers a hair above 1 keep initial x multiplier^attempt below any cap for billions of
+        // attempts: the only inputs for which attempt numbers beyond i32::MAX still matter
+        let mult = if rng.chance(0.2) { 1.0 + 10f64.powi(-(rng.range(6, 11) as i32)) } else { 1.0 + rng.below(901) as f64 / 100.0 };
         let max = match rng.below(4) {
             0 => None,
             1 => Some(initial / 2),
@@ -166,7 +168,7 @@ pub fn scenario(sseed: u64, tier: Tier) -> Report {
             big_attempts += 1;
         }
         // reference value initial * mult^a in f64
-        let exp = if a > i32::MAX as usize { f64::INFINITY } else { cfg.mult.powi(a as i32) };
+        let exp = if a > i32::MAX as usize { cfg.mult.powf(a as f64) } else { cfg.mult.powi(a as i32) };
         let exp = if cfg.mult == 1.0 { 1.0 } else { exp };
         let raw = init_s * exp;
         let raw = if cfg.initial_ns == 0 { 0.0 } else { raw };
@@ -178,7 +180,10 @@ pub fn scenario(sseed: u64, tier: Tier) -> Report {
             _ => raw,
         };
         let ds = d.as_secs_f64();
-        let tol = |x: f64| x.abs() * 1e-9 + 2e-9;
+        // powi/powf by repeated squaring: the relative error grows linearly with the exponent (it
+        // only matters for multipliers so close to 1 that huge exponents stay finite)
+        let rel = 1e-9 + (a as f64) * 4e-16;
+        let tol = |x: f64| x.abs() * rel + 2e-9;
         if !jitter {
             if let Some(c) = cap_s {
                 if ds > c + tol(c) {
